@@ -42,6 +42,8 @@ _SEARCH_MODS = ["self.ruledb.has_spec_now", "self.ruledb.ver", "*self.classdb.co
 REG.classes["RuleDBAbstract"].ghost_fields["ver"] = Map(Int, Bool)
 from .class_queue import Strat
 Packets = Seq(Strat)
+spec_fn("class_of_label", lambda ex, st, l: __import__("pyvc.core", fromlist=["Val"]).Val(
+    CombClass, __import__("z3").Function("class_of_label", __import__("z3").IntSort(), CombClass.sort())(l.z)))
 contract(FA, "RuleDBAbstract.is_verified", props=["C17", "C01"], verify=False,
          trusted_reason="abstract method: reveals the database's current verification status of a label",
          params={"self": Obj("RuleDBAbstract"), "label": Int}, returns=Bool, ensures=["result == self.ver[label]"],
@@ -58,11 +60,16 @@ contract(F, "CombinatorialSpecificationSearcher._expand_classes_for", props=["C0
          params={"self": S, "expansion_time": Float, "status_update": Opt(Int), "status_start": Float,
                  "auto_search_start": Float},
          returns=Tup(Bool, Float),
-         locals={"last_label": Opt(Int), "comb_class": CombClass, "$get_class": CombClass}, pure_calls=["get_class"],
+         locals={"last_label": Opt(Int), "comb_class": CombClass},
+         # the class stored under a label never changes (C15: append-only), so get_class is a function of the label here
+         call_models={"self.classdb.get_class": "class_of_label(label)"},
          # a packet is expanded only if verified classes are expanded anyway or its class is NOT verified at that very
          # moment -- so how the work is cut into time slices (or resumed from a pickle) never changes what gets expanded
-         call_requires={"CombinatorialSpecificationSearcher._expand": ["self.expand_verified or not self.ruledb.ver[label]"]},
-         loops={0: dict(invariant=[], modifies=_SEARCH_MODS)},
+         call_requires={"CombinatorialSpecificationSearcher._expand": ["self.expand_verified or not self.ruledb.ver[label]",
+                                                                       # ... and with the class that carries that label
+                                                                       "comb_class == class_of_label(label)"]},
+         loops={0: dict(invariant=["implies(not is_none(last_label), comb_class == class_of_label(val(last_label)))"],
+                        modifies=_SEARCH_MODS)},
          modifies=_SEARCH_MODS,
          notes="the queue is abstracted to the (arbitrary) sequence of packets it hands out; clock readings are arbitrary")
 
